@@ -170,6 +170,8 @@ func init() {
 			return ex.pubPtr(ex.garbagePoint("unmask"))
 		},
 	}
+	cryptoNatives["(github.com/decred/dcrd/dcrec/secp256k1/v4.PublicKey).SerializeCompressed"] =
+		cryptoNatives["(*github.com/decred/dcrd/dcrec/secp256k1/v4.PublicKey).SerializeCompressed"]
 	opaqueHandlers["hash"] = func(ex *Exec, g *Goroutine, cs *callSite, op *Opaque, method string, args []Value) Value {
 		h := op.Data.(*hashObj)
 		switch method {
